@@ -266,3 +266,110 @@ func RunLiveProviderVsCyclicEdit(c *eng.Ctx, next func() (int, bool)) {
 		}
 	}
 }
+
+// ---- a construction that failed, asked for again -------------------------------------------
+
+type rtDep struct{}
+type rtSvc struct{ d *rtDep }
+type rtOptIn struct {
+	godi.In
+	D *rtDep `optional:"true"`
+}
+type rtUser struct{ d *rtDep }
+type rtUser2 struct{ d *rtDep }
+
+// RunRetryTerminates: "every resolution on a successfully built provider terminates" - also the
+// resolution that comes AFTER one that failed: a scoped (or transient) service whose constructor
+// returned an error or panicked is asked for again in the same scope, directly, through a
+// consumer, and through the optional field of a parameter object (where the first failure was
+// not even visible). Each call runs under a watchdog.
+func RunRetryTerminates(c *eng.Ctx, next func() (int, bool)) {
+	for _, how := range []string{"error", "panic"} {
+		for _, life := range []godi.Lifetime{godi.Scoped, godi.Transient} {
+			for _, where := range []string{"scope", "provider"} {
+				idx, mine := next()
+				if !mine {
+					continue
+				}
+				c.R.Begin(idx)
+				feat := how + ":" + lifeName(life) + ":" + where
+				viol := func(clause, detail string) {
+					c.R.Violation(eng.Violation{Prop: "C05", Clause: clause, Sig: "C05/" + clause + ":asked-again-after-a-failed-construction:" + feat, Case: idx, CaseID: "retry-terminates-" + feat,
+						Detail: feat + ": " + detail, Replay: map[string]any{"fixture": "retry-terminates", "how": how, "lifetime": lifeName(life), "where": where}})
+				}
+				failing := true
+				coll := godi.NewCollection()
+				errs := []error{
+					eqAdd(coll, life, func() (*rtDep, error) {
+						if failing {
+							if how == "panic" {
+								panic("retry fixture: the constructor panics")
+							}
+							return nil, fmt.Errorf("retry fixture: the constructor fails")
+						}
+						return &rtDep{}, nil
+					}),
+					eqAdd(coll, life, func(d *rtDep) *rtSvc { return &rtSvc{d} }),
+					eqAdd(coll, life, func(in rtOptIn) *rtUser { return &rtUser{in.D} }),
+					eqAdd(coll, life, func(in rtOptIn) *rtUser2 { return &rtUser2{in.D} }),
+				}
+				bad := false
+				for _, e := range errs {
+					bad = bad || e != nil
+				}
+				prov, err := coll.Build()
+				if bad || err != nil {
+					c.R.Inconclusive(idx, "fixture does not build")
+					continue
+				}
+				var p godi.Provider = prov
+				if where == "scope" {
+					sc, err := prov.CreateScope(nil)
+					if err != nil {
+						c.R.Inconclusive(idx, "scope creation failed")
+						_ = prov.Close()
+						continue
+					}
+					p = sc
+				}
+				steps := []struct {
+					name string
+					run  func() error
+				}{
+					{"Resolve[*Dep] (fails)", func() error { _, e := godi.Resolve[*rtDep](p); return e }},
+					{"Resolve[*Dep] again (fails)", func() error { _, e := godi.Resolve[*rtDep](p); return e }},
+					{"Resolve[*Svc] (its dependency fails)", func() error { _, e := godi.Resolve[*rtSvc](p); return e }},
+					{"Resolve[*User] (optional field, dependency fails)", func() error { _, e := godi.Resolve[*rtUser](p); return e }},
+					{"Resolve[*User2] (optional field, same dependency)", func() error { _, e := godi.Resolve[*rtUser2](p); return e }},
+					{"Resolve[*Dep] after the constructor was repaired", func() error { failing = false; _, e := godi.Resolve[*rtDep](p); return e }},
+					{"Resolve[*Svc] after the constructor was repaired", func() error { _, e := godi.Resolve[*rtSvc](p); return e }},
+				}
+				hung := false
+				for _, st := range steps {
+					done := make(chan struct{})
+					go func() {
+						defer close(done)
+						defer func() { _ = recover() }()
+						_ = st.run()
+					}()
+					if v := eng.AwaitOrDiagnose(done, 15*time.Second); !v.Done {
+						if v.Deadlock {
+							viol("resolution-hangs", fmt.Sprintf("%s never returned; goroutines stuck inside godi:\n%s", st.name, v.Dump))
+						} else {
+							c.R.Inconclusive(idx, st.name+" did not return within the watchdog")
+						}
+						hung = true
+						break
+					}
+					c.R.Count("retry_terminates_calls", 1)
+				}
+				if hung {
+					c.R.Abandon(idx)
+					continue
+				}
+				_ = prov.Close()
+				c.R.End(idx, eng.Hash("c05-retry-terminates", feat), true)
+			}
+		}
+	}
+}
